@@ -1,8 +1,862 @@
 import QP.Base
+/-!
+# C09 — program-tree bookkeeping (`qupulse.program.loop.Loop`, `qupulse.utils.tree.Node`)
+
+A `Loop` object carries three pieces of redundant state next to its payload:
+
+* `_cached_body_duration` (`cache`)  — `None` or the sum of the children's durations,
+* `_Node__parent_index` (`pidx`)     — the position in the parent's child list,
+* `_Node__parent` (`par`)            — the listing node (a weak reference; here the parent's `uid`).
+
+The model is a plain tree whose nodes carry that state explicitly.  Object identity is a `uid`;
+new objects (copies made by `unroll`, `split_one_child`, `encapsulate`, …) take uids from a counter
+in depth-first pre-order, which is also how the harness numbers the real objects.  Every public
+editing operation is addressed by the path of the edited node from the root; it is executed by a
+*local* step on that node followed by the code's upward patching of the ancestors' caches
+(`Loop._invalidate_duration`: `cache += inc·rep` on the way up, or reset).
+
+The model is of /repo at 8e4f3a6 — which already contains the repairs of PF-03 (measurements mirrored
+about the body duration), PF-05 (a54cf25: `_reverse_children` renumbers), PF-06 (9776c49:
+`roll_constant_waveforms` resets the node's own cache and only rolls waveforms that are a whole number
+of quanta long), PF-C06-1/2 (`unroll_children` rejects leaves, `split_one_child` normalises a negative
+index) — with `fixes/PF-12.diff` (`Node.__setitem__` renumbers exactly the assigned positions of an
+extended slice; a negative integer index is stored normalised) and `fixes/PF-C09-1.diff` (the
+`repetition_count` / `repetition_definition` setters invalidate the ancestors' cached durations) applied.
+-/
 namespace QP.C09
+
+/-- abstract waveform: `kind` stands for the shape/voltages, equal records ⇔ equal waveforms -/
+structure Wf where
+  kind : Nat
+  dur : Rat
+  const : Bool
+  rev : Bool
+  deriving Repr, DecidableEq
+
+structure Meas where
+  name : Nat
+  start : Rat
+  len : Rat
+  deriving Repr, DecidableEq
+
+structure Info where
+  uid : Nat
+  rep : Int                -- `repetition_count` = `int(_repetition_definition)`
+  vol : Bool               -- the repetition definition is a `VolatileRepetitionCount`
+  wf : Option Wf
+  meas : List Meas         -- `_measurements or []`
+  cache : Option Rat       -- `_cached_body_duration`
+  pidx : Option Int        -- `_Node__parent_index`
+  par : Option Nat         -- uid of `_Node__parent()`
+  deriving Repr, DecidableEq
+
+inductive T where
+  | mk (i : Info) (ks : List T)
+  deriving Repr
+
+abbrev Path := List Nat
+
+namespace T
+def info : T → Info | .mk i _ => i
+def kids : T → List T | .mk _ ks => ks
+def upd (f : Info → Info) : T → T | .mk i ks => .mk (f i) ks
+def withCache (c : Option Rat) (t : T) : T := t.upd (fun i => { i with cache := c })
+def withPidx (p : Option Int) (t : T) : T := t.upd (fun i => { i with pidx := p })
+def withPar (p : Option Nat) (t : T) : T := t.upd (fun i => { i with par := p })
+def rep (t : T) : Int := t.info.rep
+def isLeaf (t : T) : Bool := t.kids.isEmpty
+end T
+
+/-! ## The recomputed duration (specification side) -/
+
+def leafDur : Option Wf → Rat
+  | some w => w.dur
+  | none => 0
+
+mutual
+/-- body duration recomputed from the leaves and repetition counts; never looks at a cache -/
+def bodyDur : T → Rat
+  | .mk i ks => if ks.isEmpty then leafDur i.wf else sumDur ks
+def sumDur : List T → Rat
+  | [] => 0
+  | c :: cs => bodyDur c * (c.info.rep : Rat) + sumDur cs
+end
+
+def dur (t : T) : Rat := bodyDur t * (t.info.rep : Rat)
+
+/-- the child at a path -/
+def locate : T → Path → Option T
+  | t, [] => some t
+  | t, k :: p => match t.kids[k]? with
+    | none => none
+    | some c => locate c p
+
+/-! ## Coherence -/
+
+/-- the cache of this node is empty or the recomputed body duration -/
+def cacheOkHere (t : T) : Prop := t.info.cache = none ∨ t.info.cache = some (bodyDur t)
+
+/-- every listed child records its position and this node as its parent -/
+def linksOkHere (t : T) : Prop :=
+  ∀ (k : Nat) (c : T), t.kids[k]? = some c → c.info.pidx = some (k : Int) ∧ c.info.par = some t.info.uid
+
+mutual
+def Coherent : T → Prop
+  | .mk i ks => cacheOkHere (.mk i ks) ∧ linksOkHere (.mk i ks) ∧ CoherentL ks
+def CoherentL : List T → Prop
+  | [] => True
+  | c :: cs => Coherent c ∧ CoherentL cs
+end
+
+def cacheOkHereB (t : T) : Bool :=
+  match t.info.cache with
+  | none => true
+  | some v => decide (v = bodyDur t)
+
+def linksFrom (uid : Nat) : Nat → List T → Bool
+  | _, [] => true
+  | k, c :: cs => decide (c.info.pidx = some (k : Int)) && decide (c.info.par = some uid) && linksFrom uid (k + 1) cs
+
+def linksOkHereB (t : T) : Bool := linksFrom t.info.uid 0 t.kids
+
+mutual
+/-- executable twin of `Coherent` (the judge) -/
+def coherentB : T → Bool
+  | .mk i ks => cacheOkHereB (.mk i ks) && linksOkHereB (.mk i ks) && coherentLB ks
+def coherentLB : List T → Bool
+  | [] => true
+  | c :: cs => coherentB c && coherentLB cs
+end
+
+/-! ## Reading a duration: `Loop.body_duration` / `Loop.duration` populate caches -/
+
+mutual
+/-- `node.body_duration`: the node afterwards and the value the property returns.  A present cache
+is returned as it is (no descent). -/
+def fillV : T → T × Rat
+  | .mk i ks =>
+    match i.cache with
+    | some v => (.mk i ks, v)
+    | none =>
+      if ks.isEmpty then (.mk { i with cache := some (leafDur i.wf) } ks, leafDur i.wf)
+      else
+        let r := fillLV ks
+        (.mk { i with cache := some r.2 } r.1, r.2)
+/-- `sum(child.duration for child in self)` -/
+def fillLV : List T → List T × Rat
+  | [] => ([], 0)
+  | c :: cs =>
+    let a := fillV c
+    let b := fillLV cs
+    (a.1 :: b.1, a.2 * (c.info.rep : Rat) + b.2)
+end
+
+/-- `node.duration` as reported by the code -/
+def reportedDur (t : T) : Rat := (fillV t).2 * (t.info.rep : Rat)
+
+/-! ## `Loop._invalidate_duration` -/
+
+inductive Upd where
+  | keep                -- `_invalidate_duration` is not called
+  | reset               -- `_invalidate_duration()`
+  | inc (d : Rat)       -- `_invalidate_duration(body_duration_increment=d)`
+  deriving Repr, DecidableEq
+
+/-- one level of `_invalidate_duration`: patch this node's cache, hand the rest to the parent -/
+def invalidate (u : Upd) (t : T) : T × Upd :=
+  match u with
+  | .keep => (t, .keep)
+  | .reset => (t.withCache none, .reset)
+  | .inc d => (t.withCache (t.info.cache.map (· + d)), .inc (d * (t.info.rep : Rat)))
+
+inductive Err where
+  | typeError | indexError | valueError | runtimeError | assertion | attributeError
+  | badPath        -- the request addressed a node that does not exist (harness error)
+  | unsupported    -- outside the modelled input space (see `apply`), nothing is claimed
+  deriving Repr, DecidableEq
+
+/-- result of the local step on the addressed node -/
+structure Loc where
+  node : T
+  upd : Upd
+  next : Nat
+  removed : List T := []
+  out : Option T := none
+  err : Option Err := none
+
+/-- run `f` on the node at the path and let `_invalidate_duration` climb to the root -/
+def atPath (f : T → Loc) : Path → T → Option Loc
+  | [], t => some (f t)
+  | k :: p, t =>
+    match t.kids[k]? with
+    | none => none
+    | some c =>
+      match atPath f p c with
+      | none => none
+      | some r =>
+        let a := invalidate r.upd (.mk t.info (t.kids.set k r.node))
+        some { r with node := a.1, upd := a.2 }
+
+/-! ## `Node.__setitem__` -/
+
+/-- `PySlice_AdjustIndices` after `PySlice_Unpack` -/
+def adjustIdx (v : Option Int) (len step : Int) (isStart : Bool) : Int :=
+  match v with
+  | none => if isStart then (if step < 0 then len - 1 else 0) else (if step < 0 then -1 else len)
+  | some x =>
+    if x < 0 then
+      (if x + len < 0 then (if step < 0 then -1 else 0) else x + len)
+    else if x ≥ len then (if step < 0 then len - 1 else len)
+    else x
+
+/-- `len(range(start, stop, step))` -/
+def rangeLen (start stop step : Int) : Nat :=
+  if step > 0 then (if start < stop then ((stop - start - 1) / step + 1).toNat else 0)
+  else if step < 0 then (if stop < start then ((start - stop - 1) / (-step) + 1).toNat else 0)
+  else 0
+
+/-- the positions `start + j*step`, `j < n` (all are valid indices when produced by `slice.indices`) -/
+def rangeIdx (start step : Int) (n : Nat) : List Nat :=
+  (List.range n).map (fun (j : Nat) => (start + (j : Int) * step).toNat)
+
+/-- `for index in range(first, len(self)): children[index].__parent_index = index` -/
+def renumFrom (first : Nat) (ks : List T) : List T :=
+  ks.mapIdx (fun j c => if first ≤ j then c.withPidx (some (j : Int)) else c)
+
+/-- `for index in indices: children[index].__parent_index = index` (repaired form, PF-12) -/
+def renumAt (idxs : List Nat) (ks : List T) : List T :=
+  ks.mapIdx (fun j c => if j ∈ idxs then c.withPidx (some (j : Int)) else c)
+
+/-- extended-slice store: `children[start + j*step] = values[j]` -/
+def assignExt : List Nat → List T → List T → List T
+  | i :: is, v :: vs, ks => assignExt is vs (ks.set i v)
+  | _, _, ks => ks
+
+structure SliceRes where
+  kids : List T
+  removed : List T
+
+/-- `Node.__setitem__(slice(start, stop, step), values)` on the child list of the node `uid`
+(`parse_child` makes the node the parent of every value first) -/
+def sliceAssign (uid : Nat) (ks : List T) (start stop step : Option Int) (vs : List T) : Except Err SliceRes :=
+  let len : Int := ks.length
+  let stepv := step.getD 1
+  if stepv = 0 then .error .valueError else
+  let vs' := vs.map (T.withPar (some uid))
+  let s := adjustIdx start len stepv true
+  let e := adjustIdx stop len stepv false
+  let n := rangeLen s e stepv
+  if stepv = 1 then
+    let e' := if e < s then s else e
+    let ks' := ks.take s.toNat ++ vs' ++ ks.drop e'.toNat
+    let removed := (ks.drop s.toNat).take (e' - s).toNat
+    if vs'.length ≠ n then .ok ⟨renumFrom s.toNat ks', removed⟩
+    else .ok ⟨renumAt (rangeIdx s 1 n) ks', removed⟩
+  else if vs'.length ≠ n then .error .valueError
+  else
+    let idxs := rangeIdx s stepv n
+    .ok ⟨renumAt idxs (assignExt idxs vs' ks), idxs.filterMap (fun i => ks[i]?)⟩
+
+/-- `Node.__setitem__(idx: int, value)` (repaired form, PF-12: the stored position is normalised) -/
+def itemAssign (uid : Nat) (ks : List T) (idx : Int) (v : T) : Except Err SliceRes :=
+  let len : Int := ks.length
+  let j := if idx < 0 then idx + len else idx
+  if j < 0 ∨ j ≥ len then .error .indexError
+  else .ok ⟨ks.set j.toNat ((v.withPar (some uid)).withPidx (some j)), (ks[j.toNat]?).toList⟩
+
+/-! ## `Loop.copy_tree_structure` -/
+
+mutual
+/-- a deep copy: fresh uids in pre-order starting at `n`, empty caches, children numbered -/
+def copyT (par : Option Nat) (pidx : Option Int) : T → Nat → T × Nat
+  | .mk i ks, n =>
+    let r := copyL n 0 ks (n + 1)
+    (.mk { uid := n, rep := i.rep, vol := i.vol, wf := i.wf, meas := i.meas, cache := none,
+           pidx := pidx, par := par } r.1, r.2)
+def copyL (paruid : Nat) (idx : Nat) : List T → Nat → List T × Nat
+  | [], n => ([], n)
+  | c :: cs, n =>
+    let a := copyT (some paruid) (some (idx : Int)) c n
+    let b := copyL paruid (idx + 1) cs a.2
+    (a.1 :: b.1, b.2)
+end
+
+/-- `k` copies of every child in turn (`for _ in range(k) for child in self`), all with parent
+pointer `par` and no recorded position (they are positioned by the slice assignment) -/
+def copyMany (par : Option Nat) (src : List T) : Nat → Nat → List T × Nat
+  | 0, n => ([], n)
+  | k + 1, n =>
+    let a := copyRow par src n
+    let b := copyMany par src k a.2
+    (a.1 ++ b.1, b.2)
+where
+  copyRow (par : Option Nat) : List T → Nat → List T × Nat
+    | [], n => ([], n)
+    | c :: cs, n =>
+      let a := copyT par none c n
+      let b := copyRow par cs a.2
+      (a.1 :: b.1, b.2)
+
+/-- `Loop(children=kids, …)` (`Node.__init__`): a new node without parent adopts the given children
+and numbers them -/
+def mkNode (uid : Nat) (rep : Int) (vol : Bool) (wf : Option Wf) (meas : List Meas) (kids : List T) : T :=
+  .mk { uid := uid, rep := rep, vol := vol, wf := wf, meas := meas, cache := none, pidx := none, par := none }
+      (kids.mapIdx (fun j c => (c.withPar (some uid)).withPidx (some (j : Int))))
+
+/-! ## The local steps -/
+
+def okLoc (t : T) (u : Upd) (next : Nat) (removed : List T := []) : Loc :=
+  { node := t, upd := u, next := next, removed := removed }
+
+def errLoc (t : T) (e : Err) (next : Nat) : Loc :=
+  { node := t, upd := .keep, next := next, err := some e }
+
+/-- `node.duration` -/
+def queryLoc (next : Nat) (t : T) : Loc := okLoc (fillV t).1 .keep next
+
+/-- `node.append_child(a)`: `Node.__setitem__(slice(len, len), (a,))`, then
+`_invalidate_duration(body_duration_increment=self[-1].duration)` -/
+def appendLoc (a : T) (next : Nat) (t : T) : Loc :=
+  let n := t.kids.length
+  let a1 := (a.withPar (some t.info.uid)).withPidx (some (n : Int))
+  let f := fillV a1                       -- `self[-1].duration` populates the new child's caches
+  let cd := f.2 * (a1.info.rep : Rat)
+  let t' : T := .mk { t.info with cache := t.info.cache.map (· + cd) } (t.kids ++ [f.1])
+  okLoc t' (.inc (cd * (t.info.rep : Rat))) next
+
+/-- `Loop.__setitem__`: `Node.__setitem__` then `_invalidate_duration()` -/
+def setSliceLoc (start stop step : Option Int) (vs : List T) (next : Nat) (t : T) : Loc :=
+  match sliceAssign t.info.uid t.kids start stop step vs with
+  | .error e => errLoc t e next
+  | .ok r => okLoc (.mk { t.info with cache := none } r.kids) .reset next r.removed
+
+def setItemLoc (idx : Int) (v : T) (next : Nat) (t : T) : Loc :=
+  match itemAssign t.info.uid t.kids idx v with
+  | .error e => errLoc t e next
+  | .ok r => okLoc (.mk { t.info with cache := none } r.kids) .reset next r.removed
+
+/-- `node.waveform = w` -/
+def setWfLoc (w : Option Wf) (next : Nat) (t : T) : Loc :=
+  okLoc (t.upd (fun i => { i with wf := w, cache := none })) .reset next
+
+/-- `node.repetition_count = r` / `node.repetition_definition = …` (repaired form, PF-C09-1: the
+parent chain is invalidated; the node's own body duration does not depend on its count) -/
+def setRepLoc (r : Int) (vol : Bool) (next : Nat) (t : T) : Loc :=
+  okLoc (t.upd (fun i => { i with rep := r, vol := vol })) .reset next
+
+/-- `child.unroll()` seen from the parent `t`, `k` the child's place in the list.  The code uses the
+child's *recorded* position `i = self.parent_index` for `self.parent[i:i+1] = copies`. -/
+def unrollLoc (k : Nat) (next : Nat) (t : T) : Loc :=
+  match t.kids[k]? with
+  | none => errLoc t .badPath next
+  | some c =>
+    if c.isLeaf then errLoc t .runtimeError next else
+    match c.info.pidx with
+    | none => errLoc t .typeError next
+    | some i =>
+      let cp := copyMany (some t.info.uid) c.kids c.info.rep.toNat next
+      match sliceAssign t.info.uid t.kids (some i) (some (i + 1)) none cp.1 with
+      | .error e => errLoc t e next
+      | .ok r => okLoc (.mk { t.info with cache := none } r.kids) .reset cp.2 r.removed
+
+/-- `node.unroll_children()` -/
+def unrollChildrenLoc (next : Nat) (t : T) : Loc :=
+  if t.isLeaf then errLoc t .runtimeError next else
+  let cp := copyMany (some t.info.uid) t.kids t.info.rep.toNat next
+  match sliceAssign t.info.uid t.kids none none none cp.1 with
+  | .error e => errLoc t e next
+  | .ok r => okLoc (.mk { t.info with cache := none, rep := 1, vol := false } r.kids) .reset cp.2 r.removed
+
+/-- `node.encapsulate()` -/
+def encapsulateLoc (next : Nat) (t : T) : Loc :=
+  let i := t.info
+  let inner : T := .mk { uid := next, rep := i.rep, vol := i.vol, wf := i.wf, meas := i.meas, cache := none,
+                         pidx := some 0, par := some i.uid }
+                       (t.kids.mapIdx (fun j c => (c.withPar (some next)).withPidx (some (j : Int))))
+  okLoc (.mk { i with cache := none, rep := 1, vol := false, wf := none, meas := [] } [inner]) .reset (next + 1)
+
+/-- `_has_single_child_that_can_be_merged` -/
+def canMerge (t : T) : Bool :=
+  match t.kids with
+  | [c] => t.info.meas.isEmpty || (c.info.rep == 1 && !c.info.vol)
+  | _ => false
+
+/-- `node._merge_single_child()` -/
+def mergeLoc (next : Nat) (t : T) : Loc :=
+  match t.kids with
+  | [c] =>
+    let mergable := c.info.rep == 1 && !c.info.vol
+    if !(t.info.meas.isEmpty || mergable) then errLoc t .assertion next else
+    if t.info.wf.isSome then errLoc t .assertion next else
+    let meas := if t.info.meas.isEmpty then c.info.meas
+                else if c.info.meas.isEmpty then t.info.meas else c.info.meas ++ t.info.meas
+    match sliceAssign t.info.uid t.kids none none none c.kids with
+    | .error e => errLoc t e next
+    | .ok r =>
+      -- `int(VolatileRepetitionCount)` clamps a negative value to 0
+      let vol := t.info.vol || c.info.vol
+      let prod := t.info.rep * c.info.rep
+      okLoc (.mk { t.info with cache := none, rep := if vol then max prod 0 else prod, vol := vol,
+                               wf := c.info.wf, meas := meas } r.kids) .reset next
+  | _ => errLoc t .assertion next
+
+/-- the default choice of `split_one_child`: the last child with count > 1 that is not volatile,
+else the last volatile one -/
+def splitDefault (ks : List T) : Option Nat :=
+  let idx := List.range ks.length
+  let big := idx.filter (fun j => match ks[j]? with | some c => decide (c.info.rep > 1) | none => false)
+  match (big.filter (fun j => match ks[j]? with | some c => !c.info.vol | none => false)).getLast? with
+  | some j => some j
+  | none => big.getLast?
+
+/-- `node.split_one_child(child_index)` -/
+def splitLoc (idx : Option Int) (next : Nat) (t : T) : Loc :=
+  let len : Int := t.kids.length
+  let pick : Except Err Int :=
+    match idx with
+    | some ci =>
+      let j := if ci < 0 then ci + len else ci
+      if j < 0 ∨ j ≥ len then .error .indexError else
+      match t.kids[j.toNat]? with
+      | none => .error .indexError
+      | some c => if c.info.rep < 2 then .error .valueError else .ok j     -- a negative index is normalised
+    | none =>
+      match splitDefault t.kids with
+      | some j => .ok (j : Int)
+      | none => .error .runtimeError
+  match pick with
+  | .error e => errLoc t e next
+  | .ok ci =>
+    let j := (if ci < 0 then ci + len else ci).toNat
+    match t.kids[j]? with
+    | none => errLoc t .indexError next
+    | some c =>
+      let cp := copyT (some t.info.uid) none c next
+      let newChild := cp.1.upd (fun i => { i with rep := 1, vol := false })
+      let ks1 := t.kids.set j (c.upd (fun i => { i with rep := i.rep - 1, vol := false }))
+      match sliceAssign t.info.uid ks1 (some (ci + 1)) (some (ci + 1)) none [newChild] with
+      | .error e => errLoc t e next
+      | .ok r => okLoc (.mk { t.info with cache := none } r.kids) .reset cp.2
+
+/-- `Waveform.reversed()` -/
+def Wf.reversed (w : Wf) : Wf := if w.const then w else { w with rev := !w.rev }
+
+/-- `if self._measurements: duration = self.body_duration; …` -/
+def revMeas (t : T) : T × Bool :=
+  if t.info.meas.isEmpty then (t, true) else
+  let f := fillV t
+  let d := f.2                 -- the body duration: measurements are repeated with the body
+  (f.1.upd (fun i => { i with meas := i.meas.map (fun m => { m with start := d - (m.start + m.len) }) }), true)
+
+mutual
+/-- `node.reverse_inplace()` (repaired form, PF-05: `_reverse_children` renumbers).  The flag is
+`false` when an `AttributeError` (leaf without waveform) stopped the traversal; what had been done
+up to then stays done. -/
+def revT : T → T × Bool
+  | .mk i ks =>
+    if ks.isEmpty then
+      match i.wf with
+      | none => (.mk i ks, false)
+      | some w => revMeas (.mk { i with wf := some w.reversed } ks)
+    else
+      let r := revL ks
+      let ks' := (r.1.reverse).mapIdx (fun j c => c.withPidx (some (j : Int)))
+      if r.2 then revMeas (.mk i ks') else (.mk i ks', false)
+/-- the children are visited in their *new* order, i.e. this list from the back; `revL` returns
+the list in the old order with the visited tail processed -/
+def revL : List T → List T × Bool
+  | [] => ([], true)
+  | c :: cs =>
+    let b := revL cs
+    if b.2 then
+      let a := revT c
+      (a.1 :: b.1, a.2)
+    else (c :: b.1, false)
+end
+def reverseLoc (next : Nat) (t : T) : Loc :=
+  let r := revT t
+  { node := r.1, upd := .keep, next := next, err := if r.2 then none else some .attributeError }
+
+/-- no node carries a waveform and children at the same time (class docstring of `Loop`) -/
+def noMixedB : T → Bool
+  | .mk i ks => (i.wf.isNone || ks.isEmpty) && noMixedLB ks
+where noMixedLB : List T → Bool
+  | [] => true
+  | c :: cs => noMixedB c && noMixedLB cs
+
+/-- smallest divisor of `n` that is `≥ m` (`qupulse.utils.numeric.smallest_factor_ge`), for `1 ≤ m ≤ n` -/
+def smallestFactorGe (n m : Nat) : Nat :=
+  match ((List.range (n + 1)).filter (fun f => m ≤ f && n % f == 0)).head? with
+  | some f => f
+  | none => n
+
+/-- `roll_constant_waveforms` on one node that carries a waveform (repaired form, PF-06) -/
+def rollLeaf (minq quantum : Nat) (sr : Rat) (i : Info) (w : Wf) : Info :=
+  let wq : Int := (w.dur * sr / (quantum : Rat)).floor
+  if w.dur * sr ≠ (wq : Rat) * (quantum : Rat) then i else      -- PF-06: not a whole number of quanta
+  if wq < (minq : Int) * 2 then i else
+  if !w.const then i else
+  let nq := smallestFactorGe wq.toNat minq
+  if (nq : Int) = wq then i else
+  let k : Int := wq / (nq : Int)
+  { i with rep := i.rep * k,
+           wf := some { w with dur := ((quantum : Rat) * (nq : Rat)) / sr },
+           cache := none }                                    -- PF-06: own cache reset
+
+mutual
+def rollT (minq quantum : Nat) (sr : Rat) : T → T
+  | .mk i ks =>
+    let i := { i with meas := [] }
+    match i.wf with
+    | none => .mk i (rollL minq quantum sr ks)
+    | some w => .mk (rollLeaf minq quantum sr i w) ks
+def rollL (minq quantum : Nat) (sr : Rat) : List T → List T
+  | [] => []
+  | c :: cs => rollT minq quantum sr c :: rollL minq quantum sr cs
+end
+
+def rollLoc (minq quantum : Int) (sr : Rat) (next : Nat) (t : T) : Loc :=
+  if minq < 1 ∨ quantum < 1 ∨ sr ≤ 0 ∨ !noMixedB t then errLoc t .unsupported next
+  else okLoc (rollT minq.toNat quantum.toNat sr t) .keep next
+
+mutual
+/-- `node.cleanup(actions)`; the flag says whether any `_invalidate_duration()` was triggered in
+the subtree (each one climbs through all ancestors) -/
+def cleanupT (re mg : Bool) : T → T × Bool
+  | .mk i ks =>
+    let r := cleanupL re mg ks
+    -- `new_children`
+    let keep := if re then r.1.filter (fun c => c.info.wf.isSome || !c.isLeaf) else r.1
+    let changed1 := keep.length != r.1.length
+    let ks1 := if changed1 then keep.mapIdx (fun j c => (c.withPar (some i.uid)).withPidx (some (j : Int))) else r.1
+    let t1 : T := .mk (if r.2 || changed1 then { i with cache := none } else i) ks1
+    if mg && canMerge t1 then ((mergeLoc 0 t1).node, true) else (t1, r.2 || changed1)
+def cleanupL (re mg : Bool) : List T → List T × Bool
+  | [] => ([], false)
+  | c :: cs =>
+    let a := if c.isLeaf then (c, false) else cleanupT re mg c
+    let b := cleanupL re mg cs
+    (a.1 :: b.1, a.2 || b.2)
+end
+
+def cleanupLoc (re mg : Bool) (next : Nat) (t : T) : Loc :=
+  if !noMixedB t then errLoc t .unsupported next else
+  let r := cleanupT re mg t
+  okLoc r.1 (if r.2 then .reset else .keep) next
+
+/-- `node.copy_tree_structure()` (default: the copy keeps the original's parent pointer) or
+`node.copy_tree_structure(new_parent=None)` -/
+def copyLoc (keepParent : Bool) (next : Nat) (t : T) : Loc :=
+  let cp := copyT (if keepParent then t.info.par else none) none t next
+  { node := t, upd := .keep, next := cp.2, out := some cp.1 }
+
+/-! ## Operations -/
+
+inductive Op where
+  | query (p : Path)
+  | append (p : Path) (a : T)
+  | setItem (p : Path) (idx : Int) (v : T)
+  | setSlice (p : Path) (start stop step : Option Int) (vs : List T)
+  | setWf (p : Path) (w : Option Wf)
+  | setRep (p : Path) (r : Int) (vol : Bool)
+  | unroll (p : Path)
+  | unrollChildren (p : Path)
+  | split (p : Path) (idx : Option Int)
+  | encapsulate (p : Path)
+  | merge (p : Path)
+  | cleanup (p : Path) (re mg : Bool)
+  | reverse (p : Path)
+  | roll (p : Path) (minq quantum : Int) (sr : Rat)
+  | copy (p : Path) (keepParent : Bool)
+
+structure St where
+  tree : T
+  next : Nat
+
+structure Res where
+  st : St
+  removed : List T := []
+  out : Option T := none
+  err : Option Err := none
+  upd : Upd := .keep      -- what `_invalidate_duration` hands on above the root (followed only by `applyBeside`)
+
+/-- largest uid in a tree + 1 -/
+def uidBound : T → Nat
+  | .mk i ks => max (i.uid + 1) (uidBoundL ks)
+where uidBoundL : List T → Nat
+  | [] => 0
+  | c :: cs => max (uidBound c) (uidBoundL cs)
+
+/-- where the local step runs and which one it is -/
+def Op.target : Op → Path
+  | .query p | .append p _ | .setItem p _ _ | .setSlice p _ _ _ _ | .setWf p _ | .setRep p _ _
+  | .unrollChildren p | .split p _ | .encapsulate p | .merge p | .cleanup p _ _ | .reverse p
+  | .roll p _ _ _ | .copy p _ => p
+  | .unroll p => p.dropLast
+
+def Op.loc (next : Nat) : Op → T → Loc
+  | .query _ => queryLoc next
+  | .append _ a => appendLoc a (max next (uidBound a))
+  | .setItem _ idx v => setItemLoc idx v (max next (uidBound v))
+  | .setSlice _ s e st vs => setSliceLoc s e st vs (max next (uidBound.uidBoundL vs))
+  | .setWf _ w => setWfLoc w next
+  | .setRep _ r v => setRepLoc r v next
+  | .unroll p => match p.getLast? with
+      | some k => unrollLoc k next
+      | none => fun t => errLoc t .typeError next
+  | .unrollChildren _ => unrollChildrenLoc next
+  | .split _ idx => splitLoc idx next
+  | .encapsulate _ => encapsulateLoc next
+  | .merge _ => mergeLoc next
+  | .cleanup _ re mg => cleanupLoc re mg next
+  | .reverse _ => reverseLoc next
+  | .roll _ mq q sr => rollLoc mq q sr next
+  | .copy _ kp => copyLoc kp next
+
+/-- one public operation on the tree -/
+def applyR (op : Op) (s : St) : Res :=
+  match op with
+  | .unroll [] =>
+    -- the root has no parent: `self.parent[i:i+1] = …` is a TypeError (after the leaf check)
+    { st := s, err := some (if s.tree.isLeaf then .runtimeError else .typeError) }
+  | _ =>
+    match atPath (op.loc s.next) op.target s.tree with
+    | none => { st := s, err := some .badPath }
+    | some r => { st := ⟨r.node, r.next⟩, removed := r.removed, out := r.out, err := r.err, upd := r.upd }
+
+def apply (op : Op) (s : St) : St := (applyR op s).st
+
+/-- argument conditions of the API: sub-trees handed in are themselves coherent programs
+(fresh, or detached from a tree), and children are only appended to a node without waveform -/
+def Pre (op : Op) (s : St) : Prop :=
+  match op with
+  | .append p a => Coherent a ∧ ∀ n, locate s.tree p = some n → n.info.wf = none
+  | .setItem _ _ v => Coherent v
+  | .setSlice _ _ _ _ vs => CoherentL vs
+  | _ => True
+
+/-- `Pre` along a history -/
+def PreAll : List Op → St → Prop
+  | [], _ => True
+  | op :: ops, s => Pre op s ∧ PreAll ops (apply op s)
+
+/-! ## PF-C09-2 (open): the parent pointer of a detached node or of a copy is still followed
+
+`copy_tree_structure()` gives the copy the ORIGINAL's parent pointer and `Node.__setitem__` leaves
+the parent pointer of removed children in place.  `_invalidate_duration` on such a tree `d` does
+not stop at its root: `if self.parent:` holds and the former parent — a node of another tree `t`
+that does not list `d` — gets its cache patched. -/
+
+mutual
+/-- `_invalidate_duration` arriving at the node `uid` of the tree (through a stale parent pointer) -/
+def escT (u : Upd) (uid : Nat) : T → Option (T × Upd)
+  | .mk i ks =>
+    if i.uid = uid then
+      -- `if self.parent:` is False for a parent without children (`Node.__len__`)
+      (if ks.isEmpty then none else some (invalidate u (.mk i ks)))
+    else
+      match escL u uid ks with
+      | none => none
+      | some r => some (invalidate r.2 (.mk i r.1))
+def escL (u : Upd) (uid : Nat) : List T → Option (List T × Upd)
+  | [] => none
+  | c :: cs =>
+    match escT u uid c with
+    | some r => some (r.1 :: cs, r.2)
+    | none =>
+      match escL u uid cs with
+      | some r => some (c :: r.1, r.2)
+      | none => none
+end
+
+/-- an operation on the tree `d` (a detached sub-tree or a copy) next to the tree `t`: besides `d`
+itself, `t` changes if `d`'s root still points to one of `t`'s nodes -/
+def applyBeside (op : Op) (t : T) (d : St) : T × Res :=
+  let r := applyR op d
+  match d.tree.info.par with
+  | none => (t, r)
+  | some u =>
+    match escT r.upd u t with
+    | some e => (e.1, r)
+    | none => (t, r)
+
+/-- all uids of a tree -/
+def uids : T → List Nat
+  | .mk i ks => i.uid :: uidsL ks
+where uidsL : List T → List Nat
+  | [] => []
+  | c :: cs => uids c ++ uidsL cs
+
+/-- the class of the open finding PF-C09-2: the edited tree's root points to a node of the other tree -/
+def InKnownClass (t : T) (d : St) : Prop := ∃ u, d.tree.info.par = some u ∧ u ∈ uids t
+
+/-! ## `Loop.__eq__` -/
+
+mutual
+def eqStruct : T → T → Bool
+  | .mk i ks, .mk j ls =>
+    decide (i.rep = j.rep) && decide (i.vol = j.vol) && decide (i.wf = j.wf) && decide (i.meas = j.meas) &&
+    decide (ks.length = ls.length) && eqStructL ks ls
+/-- `all(a == b for a, b in zip(self, other))` -/
+def eqStructL : List T → List T → Bool
+  | c :: cs, d :: ds => eqStruct c d && eqStructL cs ds
+  | _, _ => true
+end
+
+mutual
+/-- forget identity, caches, positions and parent pointers -/
+def erase : T → T
+  | .mk i ks => .mk { uid := 0, rep := i.rep, vol := i.vol, wf := i.wf, meas := i.meas, cache := none,
+                      pidx := none, par := none } (eraseL ks)
+def eraseL : List T → List T
+  | [] => []
+  | c :: cs => erase c :: eraseL cs
+end
+
+/-- the position chain recorded along a path (what `get_location` collects through the parent
+pointers, read from the root downwards) -/
+def recordedLoc : T → Path → Option (List (Option Int))
+  | _, [] => some []
+  | t, k :: p => match t.kids[k]? with
+    | none => none
+    | some c => (recordedLoc c p).map (c.info.pidx :: ·)
+
+/-! ## Line protocol -/
 open Sexp
 
+def optS {α} (f : α → Sexp) : Option α → Sexp
+  | none => .atom "-"
+  | some a => f a
+
+def wfS (w : Wf) : Sexp := .list [.atom "w", ofNat w.kind, ofRat w.dur, ofBool w.const, ofBool w.rev]
+def measS (m : Meas) : Sexp := .list [.atom "m", ofNat m.name, ofRat m.start, ofRat m.len]
+
+mutual
+def treeS : T → Sexp
+  | .mk i ks => .list [.atom "n", ofNat i.uid, ofInt i.rep, ofBool i.vol, optS wfS i.wf, .list (i.meas.map measS),
+                       optS ofRat i.cache, optS ofInt i.pidx, optS ofNat i.par, .list (treeLS ks)]
+def treeLS : List T → List Sexp
+  | [] => []
+  | c :: cs => treeS c :: treeLS cs
+end
+
+def opt? {α} (f : Sexp → Option α) : Sexp → Option (Option α)
+  | .atom "-" => some none
+  | s => (f s).map some
+
+def wf? : Sexp → Option Wf
+  | .list [.atom "w", k, d, c, r] => do
+    some { kind := ← nat? k, dur := ← rat? d, const := ← bool? c, rev := ← bool? r }
+  | _ => none
+
+def meas? : Sexp → Option Meas
+  | .list [.atom "m", n, b, l] => do some { name := ← nat? n, start := ← rat? b, len := ← rat? l }
+  | _ => none
+
+partial def tree? : Sexp → Option T
+  | .list [.atom "n", uid, rep, vol, wf, .list meas, cache, pidx, par, .list ks] => do
+    let i : Info := { uid := ← nat? uid, rep := ← int? rep, vol := ← bool? vol, wf := ← opt? wf? wf,
+                      meas := ← meas.mapM meas?, cache := ← opt? rat? cache, pidx := ← opt? int? pidx,
+                      par := ← opt? nat? par }
+    some (.mk i (← ks.mapM tree?))
+  | _ => none
+
+def path? : Sexp → Option Path
+  | .list xs => xs.mapM nat?
+  | _ => none
+
+def op? : Sexp → Option Op
+  | .list [.atom "query", p] => do some (.query (← path? p))
+  | .list [.atom "append", p, a] => do some (.append (← path? p) (← tree? a))
+  | .list [.atom "setitem", p, i, v] => do some (.setItem (← path? p) (← int? i) (← tree? v))
+  | .list [.atom "setslice", p, s, e, st, .list vs] => do
+    some (.setSlice (← path? p) (← opt? int? s) (← opt? int? e) (← opt? int? st) (← vs.mapM tree?))
+  | .list [.atom "setwf", p, w] => do some (.setWf (← path? p) (← opt? wf? w))
+  | .list [.atom "setrep", p, r, v] => do some (.setRep (← path? p) (← int? r) (← bool? v))
+  | .list [.atom "unroll", p] => do some (.unroll (← path? p))
+  | .list [.atom "unrollchildren", p] => do some (.unrollChildren (← path? p))
+  | .list [.atom "split", p, i] => do some (.split (← path? p) (← opt? int? i))
+  | .list [.atom "encapsulate", p] => do some (.encapsulate (← path? p))
+  | .list [.atom "merge", p] => do some (.merge (← path? p))
+  | .list [.atom "cleanup", p, re, mg] => do some (.cleanup (← path? p) (← bool? re) (← bool? mg))
+  | .list [.atom "reverse", p] => do some (.reverse (← path? p))
+  | .list [.atom "roll", p, mq, q, sr] => do some (.roll (← path? p) (← int? mq) (← int? q) (← rat? sr))
+  | .list [.atom "copy", p, kp] => do some (.copy (← path? p) (← bool? kp))
+  | _ => none
+
+def errName : Err → String
+  | .typeError => "type_error" | .indexError => "index_error" | .valueError => "value_error"
+  | .runtimeError => "runtime_error" | .assertion => "assertion" | .attributeError => "attribute_error"
+  | .badPath => "bad_path" | .unsupported => "unsupported"
+
+/-- which clause of `Coherent` fails first (for replay files) -/
+partial def judgeT (path : List Nat) : T → Option Sexp
+  | .mk i ks =>
+    let t := T.mk i ks
+    if !cacheOkHereB t then
+      some (.list [.atom "violates", .atom "cached-duration", .list (path.map ofNat), optS ofRat i.cache, ofRat (bodyDur t)])
+    else if !linksOkHereB t then
+      some (.list [.atom "violates", .atom "position-or-parent", .list (path.map ofNat)])
+    else
+      (List.range ks.length).zip ks |>.findSome? (fun (k, c) => judgeT (path ++ [k]) c)
+
+def stepS (r : Res) : Sexp :=
+  .list [.atom "step", optS (fun e => .atom (errName e)) r.err, treeS r.st.tree, ofNat r.st.next,
+         .list (treeLS r.removed), optS treeS r.out, ofBool (coherentB r.st.tree)]
+
+def runOps : List Op → St → List Sexp
+  | [], _ => []
+  | op :: ops, s =>
+    let r := applyR op s
+    stepS r :: runOps ops r.st
+
+def judgeS (d : Sexp) : Sexp :=
+  match tree? d with
+  | some t =>
+    match judgeT [] t with
+    | some v => v
+    | none => if coherentB t then .list [.atom "ok"] else .list [.atom "violates", .atom "unknown"]
+  | none => Sexp.err "bad-tree"
+
+/-- model and implementation side by side: per step the model's state (or `same` when it equals
+the implementation's dump) and the judge's verdict on the *implementation's* state -/
+def checkOps : List Op → List Sexp → St → List Sexp
+  | op :: ops, .list [d, o] :: ds, s =>
+    let r := applyR op s
+    let ts := treeS r.st.tree
+    let os := optS treeS r.out
+    .list [.atom "step", optS (fun e => .atom (errName e)) r.err,
+           if ts == d then .atom "same" else ts, ofNat r.st.next,
+           if os == o then .atom "same" else os, judgeS d] :: checkOps ops ds r.st
+  | _, _, _ => []
+
 def handle : List Sexp → Sexp
-  | _ => Sexp.err "c09-not-implemented"
+  | [.atom "run", t, n, .list ops] =>
+    match tree? t, nat? n, ops.mapM op? with
+    | some t, some n, some ops => .list (.atom "ok" :: runOps ops ⟨t, n⟩)
+    | _, _, _ => Sexp.err "bad-args"
+  | [.atom "check", t, n, .list ops, .list dumps] =>
+    match tree? t, nat? n, ops.mapM op? with
+    | some t, some n, some ops =>
+      if ops.length ≠ dumps.length then Sexp.err "length-mismatch" else
+      .list (.atom "ok" :: judgeS (treeS t) :: checkOps ops dumps ⟨t, n⟩)
+    | _, _, _ => Sexp.err "bad-args"
+  | [.atom "beside", t, d, n, o] =>
+    match tree? t, tree? d, nat? n, op? o with
+    | some t, some d, some n, some o =>
+      let r := applyBeside o t ⟨d, n⟩
+      .list [.atom "ok", treeS r.1, treeS r.2.st.tree, optS (fun e => .atom (errName e)) r.2.err,
+             ofBool (coherentB r.1), ofBool (coherentB r.2.st.tree)]
+    | _, _, _, _ => Sexp.err "bad-args"
+  | [.atom "judge", t] => judgeS t
+  | [.atom "dur", t] =>
+    match tree? t with
+    | some t => .list [.atom "ok", ofRat (dur t), ofRat (reportedDur t)]
+    | none => Sexp.err "bad-args"
+  | [.atom "eq", a, b] =>
+    match tree? a, tree? b with
+    | some a, some b => .list [.atom "ok", ofBool (eqStruct a b)]
+    | _, _ => Sexp.err "bad-args"
+  | _ => Sexp.err "c09-unknown-request"
 
 end QP.C09
